@@ -1591,6 +1591,8 @@ void base_str<CharT>::resize(size_t len)
     for (size_t i = start; i < len + 1; ++i) {
         m_data->data()[i] = 0;
     }
+    // also when shrinking
+    m_data->data()[len] = 0;
 }
 
 template<typename CharT>
